@@ -352,6 +352,23 @@ fn chk_hdr_bytes(b: &[u8]) -> Result<(), String> {
         if rest != b.len() - 127 {
             return Err(format!("reader consumed {} bytes instead of 127 (async={asy})", b.len() - rest));
         }
+        // ... also when far more than a header follows (a reader must not be drained by read-ahead)
+        {
+            let mut long = b[..127].to_vec();
+            long.extend(std::iter::repeat(0xABu8).take(20_000));
+            let pos = if asy {
+                let mut cur = futures::io::Cursor::new(long);
+                futures::executor::block_on(pmtiles2::Header::from_async_reader(&mut cur)).map_err(|e| format!("valid header rejected: {e}"))?;
+                cur.position()
+            } else {
+                let mut cur = std::io::Cursor::new(long);
+                pmtiles2::Header::from_reader(&mut cur).map_err(|e| format!("valid header rejected: {e}"))?;
+                cur.position()
+            };
+            if pos != 127 {
+                return Err(format!("the header reader left a 20127-byte stream at position {pos} instead of 127 (async={asy})"));
+            }
+        }
         let enc = header_enc(asy, &h).map_err(|e| format!("re-encode failed: {e}"))?;
         if enc.len() != 127 {
             return Err(format!("serialised header has {} bytes", enc.len()));
@@ -405,7 +422,9 @@ fn chk_hdr_fields(fields: &[&str]) -> Result<(), String> {
                 let ok = v.iter().any(|x| *x == i64::from(sh.coords[k]));
                 let sat = v.iter().all(|x| *x > i64::from(i32::MAX)) && sh.coords[k] == i32::MAX || v.iter().all(|x| *x < i64::from(i32::MIN)) && sh.coords[k] == i32::MIN;
                 if !ok && !sat {
-                    if near_tie_class(*c) {
+                    // the recorded defect D7 is precisely: the f64 product is an exact half and is rounded away from zero;
+                    // any other value at such an input is a different failure
+                    if near_tie_class(*c) && i64::from(sh.coords[k]) == (*c * 10_000_000.0).round() as i64 {
                         return Err(format!("NEARTIE coordinate {c:e} stored as {} but the nearest multiple of 1e-7 is {:?} (double rounding at a half-step tie)", sh.coords[k], v));
                     }
                     return Err(format!("coordinate {c:e} stored as {} but the nearest multiple of 1e-7 is {:?}", sh.coords[k], v));
